@@ -46,7 +46,7 @@ func checkC01(c *Ctx) {
 	// what an honest replica votes for (C03.5/C03.6), the vote/lock/commit decision tables (C04.1), the QC view binding (C02.3)
 	c.importFrom(checkC03, "C01.6", "C03.5", "C03.6")
 	c.importFrom(checkC04, "C01.6", "C04.1")
-	c.importFrom(checkC02, "C01.6", "C02.1", "C02.3")
+	c.importFrom(checkC02, "C01.6", "C02.1", "C02.3", "C02.7")
 
 	if commitInner == nil || commit == nil || tryCommit == nil {
 		c.Unresolved("C01.2", "Committer", "anchor missing")
